@@ -214,6 +214,21 @@ Definition h_set_vring_kick (s : dstate) (q : N) (file : N) : dstate * dres :=
         (update_reg (put_ring s1 q r2) r2 q, DOk [])
       else (update_reg s1 r1 q, DOk [])
   end.
+(* SET_VRING_KICK with the "no descriptor" bit: the ring forgets its kick descriptor (polling); its flags stay *)
+Definition h_set_vring_kick_none (s : dstate) (q : N) : dstate * dres :=
+  match get_ring s q with
+  | None => (s, DErr)
+  | Some r =>
+      let s0' := if r_ready r then
+                   match r_kick r, owner_of (d_masks s) q 0 with
+                   | Some ko, Some (t, _) =>
+                       set_regs s (filter (fun g => negb ((Nat.eqb (g_thread g) t) && kfd_eqb (g_kfd g) ko)) (d_regs s))
+                   | _, _ => s
+                   end
+                 else s in
+      let r1 := with_ring r (r_ready r) (r_enabled r) None (r_call r) in
+      (close_kick (put_ring s0' q r1) (r_kick r), DOk [])
+  end.
 Definition h_set_vring_call (s : dstate) (q : N) (file : N) : dstate * dres :=
   match get_ring s q with
   | None => (s, DErr)
@@ -612,6 +627,12 @@ Definition d_apply (s : dstate) (kind : string) (a : list N) (data : list N) (rl
   else if String.eqb kind "set_vring_kick" then
     let s0 := hold s (arg 1%nat) in
     control s0 (q_fe && (q <=? 255)) true false (fun s => h_set_vring_kick s q (arg 1%nat))
+  else if String.eqb kind "set_vring_kick_nofd" then
+    (* written on the raw socket: only the request server and the daemon handler see it; acknowledged iff REPLY_ACK *)
+    if d_dead s then (s, VS "err")
+    else
+      let '(s', r) := h_set_vring_kick_none s (N.land q 255) in
+      (match r with DOk _ => (s', if acks_on s then VS "ok" else VS "err") | DErr => (kill s', VS "err") end)
   else if String.eqb kind "set_vring_call" then
     let s0 := hold s (arg 1%nat) in
     control s0 (q_fe && (q <=? 255)) true false (fun s => h_set_vring_call s q (arg 1%nat))
@@ -684,6 +705,10 @@ Definition d_apply (s : dstate) (kind : string) (a : list N) (data : list N) (rl
     if existsb (Nat.eqb 0) (d_worker_dead s) then (s, VS "worker-timeout")
     else (s, if m_upd (d_mem s) =? 0 then VL []
              else VL (map (fun r => VL [VN (rg_gpa r); VN (rg_size r)]) (m_regs (d_mem s))))
+  else if String.eqb kind "snapshot" then
+    (* what the memory handle resolved to when the backend was last notified: the table is replaced first, then the
+       backend is told *)
+    (s, if m_upd (d_mem s) =? 0 then VL [] else VL (map (fun r => VL [VN (rg_gpa r); VN (rg_size r)]) (m_regs (d_mem s))))
   else if String.eqb kind "write_mem" then
     if existsb (Nat.eqb 0) (d_worker_dead s) then (s, VS "worker-timeout")
     else if m_upd (d_mem s) =? 0 then (s, VS "no-memory")
